@@ -24,7 +24,7 @@
 -/
 import LibfiberVerif.Proof.Signal
 import LibfiberVerif.Proof.MultiChanRingStep
-import LibfiberVerif.Proof.Chan
+import LibfiberVerif.Proof.ChanWakeStep
 
 namespace LibfiberVerif.Props.C11
 
@@ -272,6 +272,10 @@ end MultiChan
 
 /-! ################################################################################
     ## bounded / unbounded / sp channel  (include/fiber_channel.h, harness/chan.c)
+
+    One model, `Chan.sys kind cap`, for the three single-receiver channels; the signal
+    protocol of the `Signal` section is embedded unchanged.  Theorems with suffix `_queue`
+    are for the unbounded (MPSC) and sp (SPSC) channels, `_bounded` for the bounded one.
     ################################################################################ -/
 namespace Chan
 open LibfiberVerif LibfiberVerif.Chan
@@ -291,7 +295,102 @@ theorem word_is_receiver (k : Kind) (cap : Nat) (es : List Ev) (s : St) (f : Nat
   let hp := pinv_of_run h
   ⟨(hp.word_sleepy f hw).1, hp.word_id f hw⟩
 
-end Chan
+/-- `exactly_once` (unbounded / sp): what has been received is exactly the first `hd` messages
+    in the order the senders swapped the tail — nothing lost, duplicated, invented or
+    re-ordered; messages are distinct and non-NULL. -/
+theorem exactly_once_queue (k : Kind) (cap : Nat) (hk : k ≠ .bounded) (es : List Ev) (s : St)
+    (h : (sys k cap).run es = some s) :
+    s.recvd = (s.sent.map Prod.snd).take s.hd ∧ s.recvd <+: s.sent.map Prod.snd ∧
+    s.hd ≤ s.sent.length ∧ (s.sent.map Prod.snd).Nodup ∧ (∀ p, p ∈ s.sent → p.2 ≠ 0) := by
+  have hq := qinv_of_run hk h
+  exact ⟨hq.recvd_eq, by rw [hq.recvd_eq]; exact List.take_prefix _ _, hq.hd_le, hq.vnodup, hq.vnz⟩
 
+/-- `per_sender_fifo` (unbounded / sp): the messages of fiber f are linearised — and therefore,
+    by `exactly_once_queue`, received — in the order of f's calls to send. -/
+theorem per_sender_fifo_queue (k : Kind) (cap : Nat) (hk : k ≠ .bounded) (es : List Ev) (s : St) (f : Nat)
+    (h : (sys k cap).run es = some s) :
+    sentBy s f <+: s.calls f ∧ sentBy s f ++ (s.pc f).pending = s.calls f := by
+  have := (qinv_of_run hk h).calls_eq f
+  exact ⟨⟨_, this⟩, this⟩
+
+/-- what the receiver reads out of a node IS the message with the next sequence number: the
+    `data` word of every node still to be received holds its message -/
+theorem data_intact_queue (k : Kind) (cap : Nat) (hk : k ≠ .bounded) (es : List Ev) (s : St) (i : Nat)
+    (h : (sys k cap).run es = some s) (h1 : s.hd ≤ i) (h2 : i < s.sent.length) :
+    s.ndata (qval s i + 1) = qval s i :=
+  (qinv_of_run hk h).data i h1 h2
+
+/-- `receiver_resumed` (unbounded / sp) — the invariant: a message linked at the head of the
+    queue while no sender is between publishing and its exchange of RAISED ⇒ if the receiver
+    has decided to sleep its CAS will fail (word = RAISED: the raise is remembered), and if it
+    is asleep a sender has taken it out of the word and is on its way to wake it (the raise
+    was seen). -/
+theorem receiver_resumed_queue (k : Kind) (cap : Nat) (hk : k ≠ .bounded) (es : List Ev) (s : St) (w : Nat)
+    (h : (sys k cap).run es = some s) (ha : avail s) (hq : ∀ g, ¬ inFlight s g) :
+    (committed s w → s.p.word = .raised) ∧
+    (asleep s w → ∃ g, s.p.waker w = some g ∧ (s.p.pc g).targets w) :=
+  resumed_of_inv (winv_of_run hk h) ha hq w
+
+/-- … hence: with every other fiber outside any operation and a message available, the
+    receiver is NOT asleep (a receiver blocked on the channel has been resumed), and if it has
+    just decided to sleep the word is RAISED. -/
+theorem receiver_not_stranded_queue (k : Kind) (cap : Nat) (hk : k ≠ .bounded) (es : List Ev) (s : St)
+    (w : Nat) (h : (sys k cap).run es = some s) (ha : avail s) (hidle : ∀ g, g ≠ w → s.pc g = .idle) :
+    ¬ asleep s w ∧ (committed s w → s.p.word = .raised) :=
+  not_stranded_of_inv (winv_of_run hk h) ha w hidle
+
+/-! non-vacuity: runs of the real implementation (harness/chan.c, script `r,r|s1,s2`, 2 kernel
+    threads, VR_SCHED=rand VR_SWITCH=2 VR_SEED=3) for the three kinds, projected to model
+    events; in each the receiver really goes to sleep on the empty channel and is woken by the
+    sender's raise (`woke 17 true`). -/
+def traceUnbounded : List Ev :=
+  [.callRecv 16, .rHead 16 1, .rNext 16 1 0, .p (.clrScratch 16), .p (.casWaiter 16 .none true),
+   .callSend 17 1, .wData 17 2 1, .wNext 17 2 0, .p (.wStateWaiting 16), .xchgTail 17 1 2,
+   .p (.setWait 1 16), .wNext 17 1 2, .p (.xchg 17 (.fiber 16)), .p (.stNone 17),
+   .p (.rScratch 17 16 true), .p (.wStateReady 17 16), .woke 17 true, .retSend 17,
+   .callSend 17 2, .wData 17 3 2, .wNext 17 3 0, .xchgTail 17 2 3, .wNext 17 2 3,
+   .p (.xchg 17 .none), .woke 17 false, .retSend 17, .p (.clrScratch 16), .p (.stNone 16),
+   .rHead 16 1, .rNext 16 1 2, .wHead 16 2, .rData 16 2 1, .wData 16 1 1, .rData 16 1 1,
+   .retRecv 16 1, .callRecv 16, .rHead 16 2, .rNext 16 2 3, .wHead 16 3, .rData 16 3 2,
+   .wData 16 2 2, .rData 16 2 2, .retRecv 16 2]
+
+def traceSp : List Ev :=
+  [.callRecv 16, .rHead 16 1, .rNext 16 1 0, .p (.clrScratch 16), .p (.casWaiter 16 .none true),
+   .callSend 17 1, .wData 17 2 1, .wNext 17 2 0, .p (.wStateWaiting 16), .ldTail 17 1,
+   .p (.setWait 1 16), .stTail 17 2, .wNext 17 1 2, .p (.xchg 17 (.fiber 16)), .p (.stNone 17),
+   .p (.rScratch 17 16 true), .p (.wStateReady 17 16), .woke 17 true, .retSend 17,
+   .callSend 17 2, .wData 17 3 2, .wNext 17 3 0, .ldTail 17 2, .stTail 17 3, .wNext 17 2 3,
+   .p (.xchg 17 .none), .woke 17 false, .retSend 17, .p (.clrScratch 16), .p (.stNone 16),
+   .rHead 16 1, .rNext 16 1 2, .wHead 16 2, .rData 16 2 1, .wData 16 1 1, .rData 16 1 1,
+   .retRecv 16 1, .callRecv 16, .rHead 16 2, .rNext 16 2 3, .wHead 16 3, .rData 16 3 2,
+   .wData 16 2 2, .rData 16 2 2, .retRecv 16 2]
+
+def traceBounded : List Ev :=
+  [.callRecv 16, .ldHigh 16 0, .ldLow 16 0, .rBuf 16 0 0, .p (.clrScratch 16),
+   .p (.casWaiter 16 .none true), .callSend 17 1, .ldLow 17 0, .ldHigh 17 0, .rBuf 17 0 0,
+   .casHigh 17 0 0 1 true, .p (.wStateWaiting 16), .p (.setWait 1 16), .wBuf 17 0 1,
+   .p (.xchg 17 (.fiber 16)), .p (.stNone 17), .p (.rScratch 17 16 true),
+   .p (.wStateReady 17 16), .woke 17 true, .retSend 17, .callSend 17 2, .ldLow 17 0,
+   .ldHigh 17 1, .rBuf 17 1 0, .casHigh 17 1 1 2 true, .wBuf 17 1 2, .p (.xchg 17 .none),
+   .woke 17 false, .retSend 17, .p (.clrScratch 16), .p (.stNone 16), .ldHigh 16 2, .ldLow 16 0,
+   .rBuf 16 0 1, .wBuf 16 0 0, .stLow 16 1, .retRecv 16 1, .callRecv 16, .ldHigh 16 2,
+   .ldLow 16 1, .rBuf 16 1 2, .wBuf 16 1 0, .stLow 16 2, .retRecv 16 2]
+
+example : ((sys .unbounded 0).run traceUnbounded).map (fun s => (s.recvd, s.hd, s.p.parks 16, s.p.wakes 16))
+    = some ([1, 2], 2, 1, 1) := by decide
+
+example : ((sys .sp 0).run traceSp).map (fun s => (s.recvd, s.hd, s.p.parks 16, s.p.wakes 16))
+    = some ([1, 2], 2, 1, 1) := by decide
+
+example : ((sys .bounded 2).run traceBounded).map (fun s => (s.recvd, s.low, s.high, s.p.parks 16))
+    = some ([1, 2], 2, 2, 1) := by decide
+
+/-- the hypotheses of `receiver_resumed_queue` are met inside `traceUnbounded`: after 12 events
+    the message is linked, the sender has not yet exchanged (in flight), the receiver is parked -/
+example : ((sys .unbounded 0).run (traceUnbounded.take 12)).map
+      (fun s => (headNext s, s.pc 17, s.p.pc 16, s.p.word))
+    = some (2, .sPublished 1, .parked, .fiber 16) := by decide
+
+end Chan
 
 end LibfiberVerif.Props.C11
